@@ -100,10 +100,18 @@ def make_directory(rng, conv, tier):
         victim = rng.choice(bad)
         victim['data'] = victim['data'][:max(0, min(len(f['data']) for f in files) - 1)]
         victim['kind'] += '+shrunk'
-    naming = rng.choice(['indexed', 'indexed', 'prefix-stems', 'prefix-stems'])
+    naming = rng.choice(['indexed', 'indexed', 'prefix-stems', 'prefix-stems', 'dotted-stems', 'dotted-stems'])
     if naming == 'indexed':
         for i, f in enumerate(ordered):
             f['name'] = 'f%02d_%s%s' % (i, f['kind'].split(':')[0], f['ext'])
+    elif naming == 'dotted-stems':
+        # stems with dots in them, equal up to the last dot (WELL.run1, WELL.run2, WELL.2024.01 ...): the stem is not a suffix
+        base = rng.choice(['WELL', 'w.x', '25_6', 'A'])
+        tails = ['.run1', '.run2', '.run3', '.2024.01', '.2024.02', '.a', '.b', '.main', '.repeat', '.1', '.2', '.v1.final', '.v2.final', '.x.y.z']
+        rng.shuffle(tails)
+        chosen = sorted(tails[:len(ordered)]) if placement in ('bad-first', 'bad-last') else tails[:len(ordered)]
+        for f, sfx in zip(ordered, chosen):
+            f['name'] = base + sfx + f['ext']
     else:
         # distinct stems that are prefixes of one another (WELL, WELL-1, WELL 2, WELL1, WELL10 ...): still one output set per input
         base = rng.choice(['WELL', 'W', 'log.run', 'A_b'])
